@@ -1,6 +1,7 @@
 package kernel
 
 import (
+	"runtime"
 	"encoding/binary"
 	"encoding/json"
 	"fmt"
@@ -73,6 +74,9 @@ type Check struct {
 	// when the bubble ends (e.g. a sampler that does not exit after Close) is
 	// counted, not treated as harness trouble, when the statement is silent on it.
 	IgnoreBubbleLeak bool
+	// ResetPools empties the process's sync.Pools (two collections) before each
+	// run of a search worker.
+	ResetPools bool
 	// LibPaths are path fragments identifying code under test in race reports.
 	LibPaths []string
 }
@@ -129,6 +133,13 @@ func runOne(t *testing.T, c *Check, p *Plan) (res *Result) {
 			res = &Result{Key: "harness/panic", Detail: fmt.Sprint(r), Evals: 1}
 		}
 	}()
+	if c.ResetPools {
+		// two collections empty every sync.Pool of the process: what an earlier
+		// run (of a defective library) left in a process-wide pool cannot reach
+		// this run, so a violation found here is reproducible from its plan alone
+		runtime.GC()
+		runtime.GC()
+	}
 	if c.Bubble {
 		synctest.Test(t, func(t *testing.T) { inner = c.Run(p); res = inner })
 	} else {
